@@ -38,6 +38,8 @@ class C19(Prop):
         for fails in subsets:
             for pol in (False, True, 'inline'):
                 yield Case('cfg_default', (rng.choice(['convertnumbers', 'convertall', 'convert']), pol, tuple(fails)))
+                yield Case('odd_values', (rng.choice(['convert:stop', 'fieldmap:stop']), pol, tuple(fails)))
+                yield Case('odd_values', (rng.choice(['convert:value', 'fieldmap:value']), pol, tuple(fails)))
             t = self._table(fails, rng)
             for pol in (False, True, 'inline'):
                 via_config = rng.random() < 0.3
@@ -72,9 +74,58 @@ class C19(Prop):
                 yield Case('transform', ('rowmapmany', 0, ('k', 'variable', 'value'), pol, t), meta)
 
     def expand(self, case):
-        if case.op == 'cfg_default':
-            return Case('const_true', ('cfg_default',) + tuple(case.arg), dict(case.meta, orig='cfg_default'))
+        if case.op in ('cfg_default', 'odd_values'):
+            return Case('const_true', (case.op,) + tuple(case.arg), dict(case.meta, orig=case.op))
         return case
+
+    def _odd_values(self, form, pol, fails):
+        """(a) a converter / mapping that raises StopIteration is a failing conversion like any other;
+        (b) a converter / mapping that RETURNS an exception object has not failed: the object is an ordinary cell under every
+        policy"""
+        import petl as etl
+        t = [['k', 'a']] + [['bad' if f else 'ok%d' % i, i] for i, f in enumerate(fails)]
+        marker = ValueError('just a value')
+
+        def stop(v):
+            if v == 'bad':
+                raise StopIteration()
+            return v.upper()
+
+        def hands_back(v):
+            return marker if v == 'bad' else v.upper()
+        fn = stop if form.endswith('stop') else hands_back
+        if form.startswith('convert'):
+            v = etl.convert(t, 'k', fn, failonerror=pol, errorvalue='ERR')
+        else:
+            v = etl.fieldmap(t, {'k': ('k', fn), 'a': 'a'}, failonerror=pol, errorvalue='ERR')
+        got, err = [], None
+        try:
+            for r in v:
+                got.append(tuple(r))
+        except BaseException as e:   # noqa
+            err = e
+        rows = got[1:]
+        good = lambda i: ('OK%d' % i, i)   # noqa
+        if not form.endswith('stop'):
+            # nothing failed: the same rows under every policy
+            return err is None and rows == [((marker, i) if f else good(i)) for i, f in enumerate(fails)]
+        if pol is True:
+            if not any(fails):
+                return err is None and rows == [good(i) for i in range(len(fails))]
+            first = list(fails).index(True)
+            return err is not None and rows == [good(i) for i in range(first)]
+        if err is not None or len(rows) != len(fails):
+            return False
+        for i, (f, r) in enumerate(zip(fails, rows)):
+            if not f:
+                if r != good(i):
+                    return False
+            elif pol is False:
+                if r != ('ERR', i):
+                    return False
+            elif not isinstance(r[0], Exception) or r[1] != i:
+                return False
+        return True
 
     def _cfg_default(self, form, pol, fails):
         """convenience forms of convert take the policy from petl.config.failonerror when the argument is omitted"""
@@ -127,6 +178,8 @@ class C19(Prop):
         import petl.config as config
         if case.op == 'const_true':
             try:
+                if case.arg[0] == 'odd_values':
+                    return codec.t_bool(self._odd_values(*case.arg[1:]))
                 return codec.t_bool(self._cfg_default(*case.arg[1:]))
             except Exception as e:   # noqa
                 return obs_exc(e)
@@ -194,9 +247,10 @@ class C19(Prop):
 
     def valid(self, case):
         try:
-            if case.op in ('const_true', 'cfg_default'):
+            if case.op in ('const_true', 'cfg_default', 'odd_values'):
                 a = case.arg[1:] if case.op == 'const_true' else case.arg
-                return a[0] in ('convertnumbers', 'convertall', 'convert') and a[1] in (False, True, 'inline') \
+                return a[0] in ('convertnumbers', 'convertall', 'convert', 'convert:stop', 'convert:value', 'fieldmap:stop',
+                                'fieldmap:value') and a[1] in (False, True, 'inline') \
                     and all(isinstance(f, bool) for f in a[2])
             t = case.arg[-1]
             if case.arg[0] == 'convert':
@@ -206,7 +260,7 @@ class C19(Prop):
             return False
 
     def nontrivial(self, case):
-        if case.op in ('const_true', 'cfg_default'):
+        if case.op in ('const_true', 'cfg_default', 'odd_values'):
             return any(case.arg[-1])
         return any(r[0] in (2, 'x') or isinstance(r[0], tuple) for r in case.arg[-1][1:])
 
